@@ -117,6 +117,8 @@ func cmdDump(args []string) int {
 	prop := fs.String("prop", "", "property filter")
 	smt := fs.Bool("smt", false, "keep SMT files for all obligations")
 	tier := fs.String("tier", "quick", "")
+	coversOnly := fs.Bool("covers", false, "only solve the vacuity covers")
+	skip := fs.String("skip", "", "comma-separated contract keys to skip")
 	fs.Parse(args)
 	p, err := loadAll(*prop)
 	if err != nil {
@@ -138,8 +140,26 @@ func cmdDump(args []string) int {
 	os.RemoveAll(work)
 	var results []*FuncResult
 	var allObls []*Obligation
+	if *skip != "" {
+		var keep []*Contract
+		for _, c := range cs {
+			if !strings.Contains(","+*skip+",", ","+c.Key+",") {
+				keep = append(keep, c)
+			}
+		}
+		cs = keep
+	}
 	for _, c := range cs {
 		r := verifyFunc(p, c, *prop)
+		if *coversOnly {
+			var keep []*Obligation
+			for _, o := range r.Obls {
+				if o.Cover {
+					keep = append(keep, o)
+				}
+			}
+			r.Obls = keep
+		}
 		results = append(results, r)
 		allObls = append(allObls, r.Obls...)
 	}
@@ -162,8 +182,14 @@ func cmdDump(args []string) int {
 			}
 			if a.Cover && a.Status != "sat" {
 				mark = "NOTE"
+				if a.Status == "unsat" {
+					mark = "UNREACHABLE"
+				}
 			}
 			fmt.Printf("  %s %-50s %-8s inst=%d %.2fs %s\n", mark, a.Name, a.Status, a.N, a.Secs, a.Solver)
+			if a.Cover && a.Status == "unsat" {
+				fmt.Printf("       %s\n", a.Text)
+			}
 			if !a.ok() {
 				fmt.Printf("       %s\n", a.Text)
 				for _, o := range a.Inst {
